@@ -217,7 +217,11 @@ def run(s):
             continue
         rng = s.rng('state', i)
         pool = gen.text_pool('hostile')
-        ro_txt = gen.rand_ro(rng, n_stories=rng.randint(1, 5), pool=pool)
+        if i % 3 == 2:
+            hs = rng.sample(gen.HOSTILE_IDS, rng.randint(2, 5))
+            ro_txt = gen.rand_ro(rng, n_stories=len(hs), story_ids=hs, pool=pool)      # hostile IDs (quotes, braces, commas ...)
+        else:
+            ro_txt = gen.rand_ro(rng, n_stories=rng.randint(1, 5), pool=pool)
         state = Abs(ro_txt)
         ids = gen.Ids('M%d.' % i)
         for kind, shapes, kw in gen.shape_product(rng, state, ids, pool):
